@@ -11,6 +11,7 @@ CONSTANTS
   FrameLen = 4
   MarkLen = 4
   MutTornMarker = FALSE
+  AsBuiltBareRecover = FALSE
   MutRepairDeep = TRUE
   MaxPre = 3
   MaxMid = 0
